@@ -10,7 +10,7 @@ CONSTANTS
   EncChoices = {FALSE}
   ByValueMax = 2
   AllowConflicts = FALSE
-  Features = {"observer", "apps", "gce", "badkp", "custom", "extcommit"}
+  Features = {"observer", "apps", "gce", "badkp", "custom", "extcommit", "extsender", "newmember"}
   Window = 1024
   Retention = 3
   BurstSizes = {1, 2}
